@@ -540,6 +540,68 @@ def make_algo(kind, sysd, mode=None, svd=None, dt=None, nsteps=1, final=None, op
                                ops or [], mode=mode, svd=svd, builder=bool(sysd.get("builder")))
 
 
+def state_query(algo, sysd, act):
+    """One public READ-ONLY query of the live state of a time-evolution object, act = "query:<what>:<nodes>:<seed>" with nodes =
+    node indices joined by '.', or a call that the library has to reject, act = "badquery:<what>:<nodes>:<seed>".
+    what: ss  state.single_site_operator_expectation_value(node, A)        tp  state.tensor_product_expectation_value({nodes: A})
+          op  state.operator_expectation_value(TensorProduct)               ttno  state.operator_expectation_value(the TTNO)
+          norm / scal  state.norm() / state.scalar_product()                canon  state.is_in_canonical_form([node])
+          vec  state.completely_contract_tree(to_copy=True)                 cstate  copy.deepcopy(state), contracted
+    badquery: nonode (ss on an identifier that is not in the tree), shape (ss with an operator of the wrong dimension),
+          type (operator_expectation_value of something that is no operator).
+    Returns a JSON-able description of the outcome (value or the exception raised); never raises for a rejected call."""
+    head, what, nodes, seed = act.split(":")
+    ks = [int(x) for x in nodes.split(".") if x != ""]
+    nprs = np.random.RandomState(int(seed))
+    st = algo.state
+
+    def herm(k, extra=0):
+        d = sysd["dims"][f"n{k}"] + extra
+        a = nprs.standard_normal((d, d)) + 1j * nprs.standard_normal((d, d))
+        return a + a.conj().T
+    try:
+        if head == "badquery":
+            if what == "nonode":
+                v = st.single_site_operator_expectation_value("n%d_x" % (len(sysd["ids"]) + 3), herm(ks[0]))
+            elif what == "shape":
+                v = st.single_site_operator_expectation_value(f"n{ks[0]}", herm(ks[0], extra=1))
+            elif what == "type":
+                v = st.operator_expectation_value([f"n{ks[0]}"])
+            else:
+                raise ValueError(act)
+            return {"raised": None, "value": repr(v)[:60]}
+        if what == "ss":
+            v = st.single_site_operator_expectation_value(f"n{ks[0]}", herm(ks[0]))
+        elif what == "tp":
+            v = st.tensor_product_expectation_value(util.TensorProduct({f"n{k}": herm(k) for k in ks}))
+        elif what == "op":
+            v = st.operator_expectation_value(util.TensorProduct({f"n{k}": herm(k) for k in ks}))
+        elif what == "ttno":
+            v = st.operator_expectation_value(algo.hamiltonian)
+        elif what == "norm":
+            v = st.norm()
+        elif what == "scal":
+            v = st.scalar_product()
+        elif what == "canon":
+            v = bool(st.is_in_canonical_form(f"n{ks[0]}") if ks else st.is_in_canonical_form())
+        elif what == "vec":
+            v = float(np.linalg.norm(st.completely_contract_tree(to_copy=True)[0]))
+        elif what == "cstate":
+            v = float(np.linalg.norm(copy.deepcopy(st).completely_contract_tree()[0]))
+        else:
+            raise ValueError(act)
+        v = complex(v)
+        return {"value": [v.real, v.imag]}
+    except ValueError as e:
+        if head == "badquery" and not str(e).startswith(act):
+            return {"raised": f"{type(e).__name__}"}
+        raise
+    except Exception as e:  # noqa
+        if head == "badquery":
+            return {"raised": f"{type(e).__name__}"}
+        raise
+
+
 def history_steps(history):
     return sum(1 for a in history if a == "step") if history else None
 
@@ -619,9 +681,39 @@ def record_run(kind, sysd, nsteps, check_heff=False, mode=None, svd=None, after_
 
         if after_step is not None:
             ob["measure"].append(after_step(algo, 0))
+        others = []          # objects set aside by "copy" / "pickle" (most recent last); "back" returns to the last one
+        ob["queries"] = []
         for act in history:
             if act == "step":
                 ok = one_step(algo.run_one_time_step)
+            elif act in ("copy", "pickle"):
+                # OBJECTS PRODUCED BY THE LIBRARY / PYTHON PROTOCOLS: the evolution continues on a duplicate of the whole
+                # algorithm object (copy.deepcopy, or a pickle round trip); the object duplicated is kept for "back"
+                def do_dup(act=act):
+                    nonlocal algo
+                    if act == "copy":
+                        new = copy.deepcopy(algo)
+                    else:
+                        import pickle
+                        new = pickle.loads(pickle.dumps(algo))
+                    others.append(algo)
+                    algo = new
+                    rec.algo = new
+                ok = other(act, do_dup)
+            elif act == "back":
+                def do_back():
+                    nonlocal algo
+                    others.append(algo)
+                    algo = others.pop(-2)
+                    rec.algo = algo
+                ok = other("back", do_back)
+            elif act.startswith("query:") or act.startswith("badquery:"):
+                # READ-ONLY public queries of the LIVE state between two steps (what a hand-written stepping loop does);
+                # badquery: a call the library rejects (it must raise, the caller catches it and keeps using the object)
+                def do_query(act=act):
+                    r = state_query(algo, sysd, act)
+                    ob["queries"].append([act, r])
+                ok = other(act.split(":")[0], do_query)
             elif act == "reset":
                 def do_reset():
                     algo.reset_to_initial_state()
@@ -748,6 +840,10 @@ def compare_traces(case, ob, mo):
     for k, (label, events) in enumerate(ob.get("between", [])):
         if label == "eval" and events:
             return f"action {k + 1} (evaluate_operators): schedule-level events {events[:3]} where the model has none"
+        if label in ("copy", "pickle", "back", "query", "badquery") and events:
+            # duplicating the object, returning to the one set aside, a read-only query of the live state and a rejected call
+            # are no part of the schedule: no centre move, no cache write, no local update
+            return f"action {k + 1} ({label}): schedule-level events {events[:3]} where the model has none"
         if label == "reset":
             idx = max([i for i, e in enumerate(events) if e[0] == "reinit"], default=-1)
             d = first_diff(events[idx + 1:], norm_model_trace(ini))
@@ -895,6 +991,87 @@ def gen_history_cases(rng, count, kinds, base):
         # with more than 6 nodes, where the einsum of the whole <psi|H|psi> diagram of the value tie gets expensive
         c["wcap"] = 1 if n <= 6 else 0
         c["hist"] = hk
+        cases.append(c)
+    return cases
+
+
+QUERY_KINDS = ["ss", "ss", "ss", "tp", "tp", "op", "ttno", "norm", "scal", "canon", "vec", "cstate"]
+BAD_QUERIES = ["nonode", "shape", "type"]
+
+
+def gen_object_cases(rng, count, kinds, base):
+    """HISTORIES that mix the time steps with OTHER public operations on the evolving objects (the property quantifies over
+    histories; every local update of every step of such a history has to use E^dagger H E of the tensors the object holds
+    at that moment):
+      dup    the whole algorithm object is duplicated between / before steps - copy.deepcopy(algo) or a pickle round trip -
+             and the steps continue ON THE DUPLICATE (an object produced by Python's copy protocol from the library's
+             classes: its cache, state and Hamiltonian have to belong together as in the original), later also on the
+             object set aside ("back"), and through reset_to_initial_state() of the duplicate;
+      query  between two steps the LIVE state algo.state is asked read-only questions the way a hand-written stepping loop
+             does: single_site_operator_expectation_value / tensor_product_expectation_value / operator_expectation_value
+             (TensorProduct on one or two nodes, the TTNO itself), norm, scalar_product, is_in_canonical_form,
+             completely_contract_tree(to_copy=True), a deepcopy of the state; the queried node is a leaf furthest from
+             the sweep's first node, the sweep's first node itself, or a random node;
+      error  a call the library rejects (identifier that is not in the tree, operator of the wrong dimension, something
+             that is no operator): the caller catches the exception and goes on stepping.
+    Trees with 3..9 nodes, three quarters with a node of degree >= 3 (multi-hop centre moves inside the sweeps), the rest
+    chains; two thirds of the states have every bond >= 2.  2..3 time steps per history, always at least one after the
+    last other operation.  `base(rng, j, par)` supplies the property-specific fields."""
+    branching = [p for p in SPECIAL_TREES + DEEP_TREES + HUB_TREES if max(degrees(p)) >= 3]
+    chains = [p for p in SPECIAL_TREES if len(p) >= 3 and max(degrees(p)) <= 2]
+    cases = []
+    for j in range(count):
+        r = rng.random()
+        if r < 0.2:
+            par = rng.choice(chains)
+        elif r < 0.45:
+            par = random_tree(rng, rng.choice([4, 5, 6, 7, 8]))
+        else:
+            par = rng.choice(branching)
+        n = len(par)
+        c = {"par": par, "kind": kinds[j % len(kinds)], "seed": rng.randrange(10 ** 9)}
+        c.update(base(rng, j, par))
+        if j % 3 != 2:
+            c["phys"] = [2] * n if n > 5 else [rng.choice([2, 3]) for _ in range(n)]
+            c["bond"] = rng.choice([2, 2, 3]) if max(degrees(par)) <= 3 or n <= 6 else 2
+        leaves = [i for i in range(n) if i not in par[1:]] or [0]
+        far, _ = far_node(par, leaves[0])
+
+        def query():
+            what = rng.choice(QUERY_KINDS)
+            k = rng.choice([far, far, rng.choice(leaves), rng.randrange(n), rng.randrange(n)])
+            ks = [k]
+            if what == "op" and n >= 2 and rng.random() < 0.6:
+                ks = sorted(rng.sample(range(n), 2))
+            if what == "canon" and rng.random() < 0.5:
+                ks = []
+            return "query:%s:%s:%d" % (what, ".".join(map(str, ks)), rng.randrange(10 ** 6))
+
+        def bad():
+            return "badquery:%s:%d:%d" % (rng.choice(BAD_QUERIES), rng.randrange(n), rng.randrange(10 ** 6))
+
+        fam = ["dup", "query", "dup", "query", "error", "mixed"][(j // len(kinds)) % 6]
+        dup = "pickle" if (fam == "dup" and rng.random() < 0.25) else "copy"
+        if fam == "dup":
+            h = rng.choice([["step", dup, "step", "step"], [dup, "step", "step"], ["step", dup, "step", "back", "step"],
+                            [dup, "step", "back", "step"], ["step", dup, "reset", "step"], ["step", dup, dup, "step"],
+                            ["step", dup, "step", "back", "step", "back", "step"]])
+        elif fam == "query":
+            h = rng.choice([["step", query(), "step"], [query(), "step", query(), "step"], ["step", query(), query(), "step"],
+                            ["step", "step", query(), "step"], ["step", query(), "step", query(), "step"]])
+        elif fam == "error":
+            h = rng.choice([["step", bad(), "step"], [bad(), "step", bad(), query(), "step"], ["step", bad(), query(), "step"]])
+        else:
+            h = rng.choice([["step", "copy", query(), "step", "back", "step"], ["step", query(), "copy", "step", "step"],
+                            ["copy", "step", bad(), "back", query(), "step"], ["step", "copy", "step", query(), "step"]])
+        if n >= 8:
+            # (dense reference over 256..512 dimensions at every call: at most two steps)
+            while sum(1 for a in h if a == "step") > 2:
+                h.remove("step")
+        c["history"] = h
+        c["nsteps"] = max(1, sum(1 for a in h if a == "step"))
+        c["wcap"] = 1 if n <= 6 else 0
+        c["hist"] = "obj-" + fam + ("-pickle" if dup == "pickle" else "")
         cases.append(c)
     return cases
 
@@ -1085,6 +1262,15 @@ class C05(Prop):
             "bond 1..2; the hub's dimensions are laid out along the TTNO's neighbour order of the hub by every permutation of their sorted order "
             "in turn (sorted, single swaps, cyclic shifts, reversed), TTNO on the state's tree or on a reference tree with another child order, all "
             "three classes (one-site twice as often), default / Chebyshev / RK45 modes, dense E^dagger H E oracle at every call (no diagram tie). "
+            "Histories mixing the steps with other public operations on the evolving objects (trees 3..9 nodes, three quarters with a node of "
+            "degree >= 3, two thirds with every bond >= 2; 2..3 steps, at least one after the last other operation): the whole algorithm object "
+            "duplicated by copy.deepcopy or a pickle round trip before / between steps and stepped ON THE DUPLICATE, then again on the object set "
+            "aside, duplicate of a duplicate, reset_to_initial_state() of the duplicate; read-only queries of the LIVE state algo.state between steps "
+            "(single_site_operator_expectation_value / tensor_product_expectation_value / operator_expectation_value with a TensorProduct on one or "
+            "two nodes or the TTNO, norm, scalar_product, is_in_canonical_form, completely_contract_tree(to_copy=True), deepcopy of the state; queried "
+            "node = leaf furthest from the sweep start / random node); calls the library rejects (unknown identifier, operator of the wrong dimension, "
+            "non-operator: the exception is caught and the stepping goes on) - E^dagger H E of the tensors the stepped object holds at every call "
+            "of every step, and none of these operations may produce a schedule event (centre move, cache write) in the model tie. "
             "non-trivial = at least one link/two-site update (always, >= 2 nodes); distinct by content")
     clauses = [
         ("F", "for every tree with unique ids and >= 2 nodes the three traces are defined (C05_trace*_defined); one-site schemes: the signed Site "
@@ -1133,7 +1319,8 @@ class C05(Prop):
         ("V", "H_eff handed to time_evolve equals E^dagger H E (dense operator, embedding by differentiating the current dense state): "
               "numerical oracle, tolerance 1e-9 relative to max(1, max|E^dagger H E|) AND relative to max|E^dagger H E| itself (Hamiltonians "
               "in any units), at every call of every step (site, link and two-site), also after "
-              "reset_to_initial_state() and after observables were recorded on the live state; observed signed durations per node / edge "
+              "reset_to_initial_state(), after observables were recorded on the live state, on a deepcopy / pickle duplicate of the algorithm "
+              "object, after read-only queries of algo.state and after rejected calls; observed signed durations per node / edge "
               "in units of the requested dt/2 in every evolution mode"),
     ]
     trusted_base = ["NumPy einsum/kron for the dense reference E^dagger H E (independent of the library's contraction code)",
@@ -1141,7 +1328,8 @@ class C05(Prop):
                     "equal diagrams denote equal tensors (Wire/Sem*.v, C02)",
                     "the verification hook at the top of time_evolve reports (psi, H_eff, duration, direction) faithfully",
                     "monkey-patched wrappers (move to neighbour, cache add_entry, cache re-initialisation, link split/absorb) only log; "
-                    "the instance-level wrapper of run_one_time_step used to cut the log of the public run() at step boundaries only logs"]
+                    "the instance-level wrapper of run_one_time_step used to cut the log of the public run() at step boundaries only logs",
+                    "the observer identifies the stepped object's state as the one of the object the history currently drives (original or duplicate)"]
     assumptions = ["trees with at least two nodes (second-order classes raise IndexError on a single node, as the model says)",
                    "state and TTNO have the same node identifiers and parent relation (children order may differ)"]
 
@@ -1181,6 +1369,10 @@ class C05(Prop):
         # two-site scheme, whose untruncated SVDs shrink the zero-padded bonds before the hub's backward site update)
         cases += gen_large_cases(rng, ctx.scale(12, 120) * budget_scale, ["tdvp1", "tdvp2", "tdvp2s", "tdvp2", "tdvp1"],
                                  lambda rng, j, par: extra(rng, j, par))
+        # HISTORIES mixing the steps with other public operations on the evolving objects: the algorithm object duplicated
+        # (deepcopy / pickle round trip) and stepped on the duplicate and on the original, read-only queries of the live state
+        # between steps, calls the library rejects (see gen_object_cases)
+        cases += gen_object_cases(rng, ctx.scale(36, 720) * budget_scale, kinds, lambda rng, j, par: extra(rng, j, par))
         return cases
 
     def nontrivial(self, case):
